@@ -3,10 +3,15 @@
 
   Three layers, all about definitions that are either regenerated from util/type-erasure.hpp on
   every run (`Alpaqa/Gen/C16.lean`) or are the executable model the driver runs against the real
-  code (`Alpaqa/Model/C16.lean`):
+  code (`Alpaqa/Model/C16Exec.lean`: `step` is an *interpreter of the regenerated programs*
+  `Gen.C16.*P` over the checked ghost heap of `Alpaqa/Model/C16.lean`):
 
-  1. `shape_*`      — the order of lifetime actions of every copy/move/assign/cleanup path of the
-                      C++ (regenerated table) equals the order the model implements (decide).
+  1. `step_runs_generated_programs` — on every state and operation, executing the regenerated
+                      program of the C++ function equals the hand-staged operation body the
+                      invariant proofs work on (so a reordered / dropped / swapped statement of
+                      the C++ changes the executable model and breaks this theorem, hence
+                      `inv_step`); `shape_*`, `progs_match_paths` — the regenerated path tables,
+                      the regenerated programs and the declared action order agree (decide).
   2. predicate / guard theorems about the regenerated decision predicates the lifetime logic
      hinges on (sentinels, ownership, const-ness, the four small-buffer comparisons, the guards
      in front of non-const dispatch), and `const_violation_throws`, `dispatch_own_object`.
@@ -17,7 +22,7 @@
      `blocks_returned_to_origin`, `dispatch_own_object`, `copies_independent`, `refs_alias`,
      `throwing_copy_leaves_empty`.  Helper lemmas are in `Alpaqa/Proofs/C16*.lean`.
 -/
-import Alpaqa.Proofs.C16Step
+import Alpaqa.Proofs.C16Shape
 
 namespace Alpaqa.Props.C16
 open Alpaqa.Gen.C16 Alpaqa.C16
@@ -39,6 +44,27 @@ theorem shape_doCopyAssign : Gen.C16.doCopyAssign = expectedDoCopyAssign := by d
 theorem shape_constructInplace :
     constructInplacePtr = expectedConstructInplacePtr ∧
     constructInplaceObj = expectedConstructInplaceObj := by decide
+
+/-- The regenerated *programs* (decisions and actions in statement order — what `step` executes)
+    and the regenerated *path tables* describe the same control-flow paths. -/
+theorem progs_match_paths :
+    (∀ q ∈ [(copyCtorP, copyCtor), (copyCtorAllocP, copyCtorAlloc), (copyAssignP, copyAssign),
+            (moveCtorP, moveCtor), (moveCtorAllocP, moveCtorAlloc), (moveAssignP, moveAssign),
+            (cleanupFnP, cleanupFn), (deallocateFnP, deallocateFn), (allocateFnP, allocateFn),
+            (doCopyAssignP, Gen.C16.doCopyAssign)],
+      (progPaths q.1 [] []).length = q.2.length ∧ (∀ p ∈ progPaths q.1 [] [], p ∈ q.2) ∧
+        ∀ p ∈ q.2, p ∈ progPaths q.1 [] []) := by decide
+
+/-- **The model the driver runs is the regenerated description.**  `step` executes, for every
+    operation, the program regenerated from the C++ function (`Gen.C16.copyCtorP`, `moveAssignP`,
+    `cleanupFnP`, `doCopyAssignP`, `constructInplaceObj`, …; nested calls run the callee's
+    regenerated program, the `storage_guard` destructor runs at scope exit); on every state and
+    every operation this equals the hand-staged operation bodies (`stepH`: `opMoveAssign`,
+    `opCopyAssign`, …) about which the invariant lemmas are proved.  Moving a statement of the C++
+    (e.g. the allocator propagation before `cleanup()` in move assignment) changes `moveAssignP`,
+    hence what `step` does, and this equality — on which `inv_step` rests — fails. -/
+theorem step_runs_generated_programs (s : State) (op : Op) : step s op = stepH s op :=
+  step_eq_stepH s op
 
 /-- Every path of every lifetime function that move-constructs out of `other` also destroys the
     moved-from object and then resets `other.self` (by `nullOther` or through `other.deallocate()`),
@@ -195,8 +221,9 @@ theorem has_some {s : State} {i : Nat} (h : has s i = true) : ∃ w, s.wr i = so
 
 /-- **Every operation preserves the invariant.** -/
 theorem inv_step {s : State} (h : Inv s) (op : Op) (hv : validOp op) : Inv (step s op).1 := by
+  rw [step_runs_generated_programs]
   obtain ⟨hS, hI⟩ := h
-  cases op <;> simp only [step]
+  cases op <;> simp only [stepH]
   case newDefault i a =>
     split
     · rename_i hf
@@ -467,7 +494,8 @@ theorem copies_independent {s : State} (h : Inv s) {i j : Nat} {wj : Wrapper} {p
   have hr : r = (Alpaqa.C16.doCopyAssign (newW s i (if s.cfg.socc = true then 0 else (getW s j).alloc)
       (getW s j).vtTy) false i j false).1 := by
     show (step s (.copyCtor i j false)).1 = _
-    simp only [step, hf, hhas, Bool.and_self, ite_true, opCopyCtorWith, hbeq, Bool.false_eq_true,
+    rw [step_runs_generated_programs]
+    simp only [stepH, hf, hhas, Bool.and_self, ite_true, opCopyCtorWith, hbeq, Bool.false_eq_true,
       ite_false]
   rw [hr] at hI ⊢
   have hw'o : ownsReferencedObject w'.size = true := by rw [r3]; exact ho
@@ -501,7 +529,8 @@ theorem copy_of_ref_aliases {s : State} (h : Inv s) {i j k : Nat} {wj : Wrapper}
   have hr : r = (modW (newW s i (if s.cfg.socc = true then 0 else (getW s j).alloc) (getW s j).vtTy) i
       fun w => { w with size := wj.size, self := wj.self }) := by
     show (step s (.copyCtor i j false)).1 = _
-    simp only [step, hf, hhas, Bool.and_self, ite_true, opCopyCtorWith, hD, hg1]
+    rw [step_runs_generated_programs]
+    simp only [stepH, hf, hhas, Bool.and_self, ite_true, opCopyCtorWith, hD, hg1]
     rfl
   rw [hr]
   refine ⟨?_, ?_, ?_⟩
@@ -547,7 +576,8 @@ theorem throwing_copy_leaves_empty {s : State} (h : Inv s) {i j : Nat} {wi wj : 
       (modW (wCleanup s i) i fun w => { w with vtTy := (getW (wCleanup s i) j).vtTy })
       true i j true := by
     show step s (.copyAssign i j true) = _
-    simp only [step, has, hi, hj, Option.isSome_some, Bool.and_self, ite_true, opCopyAssign, hij,
+    rw [step_runs_generated_programs]
+    simp only [stepH, has, hi, hj, Option.isSome_some, Bool.and_self, ite_true, opCopyAssign, hij,
       ite_false]
   obtain ⟨w', r1, r2⟩ := q2 hexc
   have hb := (q1.wok i w' r1).1 r2
@@ -558,6 +588,12 @@ theorem throwing_copy_leaves_empty {s : State} (h : Inv s) {i j : Nat} {wi wj : 
     rw [e, r1] at hw2'; cases hw2'; rw [r2] at hs2'; cases hs2'
   · rw [doCopyAssign_wr_other hi2 j hji]; exact hj2
 
+theorem step_del (s : State) (n : Nat) :
+    (step s (.del n)).1 = if has s n = true then (opDel s n).1 else s := by
+  rw [step_runs_generated_programs]
+  simp only [stepH]
+  split <;> rfl
+
 /-- Destroying every wrapper of the pool keeps the invariant and empties the slots. -/
 theorem inv_delAll {s : State} (h : Inv s) (n : Nat) :
     Inv (delAll s n) ∧ (∀ i, i < n → (delAll s n).wr i = none) ∧
@@ -565,7 +601,7 @@ theorem inv_delAll {s : State} (h : Inv s) (n : Nat) :
   induction n generalizing s with
   | zero => exact ⟨h, fun i hi => by omega, fun i _ => rfl⟩
   | succ n ih =>
-    simp only [delAll]
+    simp only [delAll, step_del]
     by_cases hh : has s n = true
     · obtain ⟨w, hw⟩ := has_some hh
       obtain ⟨hI, hn, hfr⟩ := inv_opDel h.1 hw
@@ -648,27 +684,173 @@ theorem construct_destroy_once {s : State} (h : Inv s)
         rw [hnone] at hw'; cases hw'
     | env k => exact ⟨k, o, by simpa [objAt] using ho, hoid⟩
 
-/-- The same for a whole history from the initial pool: any operation sequence, then every
-    wrapper destroyed. -/
+/-! ### Whole histories from the initial pool: no side conditions left -/
+
+/-- No operation sequence changes the configuration (small-buffer size, allocator traits, pool
+    size). -/
+theorem run_cfg (s : State) (ops : List Op) : (run s ops).cfg = s.cfg := by
+  induction ops generalizing s with
+  | nil => rfl
+  | cons o r ih =>
+    simp only [run]
+    rw [ih, step_runs_generated_programs]; exact (stepH_shape s o).1
+
+/-- No operation sequence puts a wrapper into a slot outside the pool. -/
+theorem run_pool (s : State) (ops : List Op) (h : ∀ i, s.cfg.npool ≤ i → s.wr i = none) :
+    ∀ i, (run s ops).cfg.npool ≤ i → (run s ops).wr i = none := by
+  induction ops generalizing s with
+  | nil => exact h
+  | cons o r ih =>
+    simp only [run]
+    apply ih
+    intro i hi
+    rw [step_runs_generated_programs] at hi ⊢
+    rw [(stepH_shape s o).1] at hi
+    have := (stepH_shape s o).2 i hi (by rw [h i hi]; rfl)
+    exact Option.not_isSome_iff_eq_none.mp (by rw [this]; simp)
+
+/-- The environment's objects are the two the pool started with: object `k` lives in slot `k`. -/
+def EnvIds (s : State) : Prop := ∀ k o, s.env k = some o → o.id = k ∧ k < 2
+
+theorem envIds_init (cfg : Cfg) (a b : Nat) : EnvIds (initState cfg a b) := by
+  intro k o h
+  simp only [initState] at h
+  split at h
+  · rename_i e; subst e; cases h; exact ⟨rfl, by omega⟩
+  · split at h
+    · rename_i e; subst e; cases h; exact ⟨rfl, by omega⟩
+    · cases h
+
+theorem envIds_of_le {s s' : State} (h : EnvIds s) (hl : EnvLe s s') : EnvIds s' := by
+  intro k o' ho'
+  obtain ⟨o, ho, hid⟩ := hl k o' ho'
+  have := h k o ho
+  exact ⟨hid ▸ this.1, this.2⟩
+
+/-- No operation sequence constructs in, or changes the identity of, the environment's objects. -/
+theorem run_envIds {s : State} (h : EnvIds s) (ops : List Op) : EnvIds (run s ops) := by
+  induction ops generalizing s with
+  | nil => exact h
+  | cons o r ih =>
+    simp only [run]
+    apply ih
+    rw [step_runs_generated_programs]
+    exact envIds_of_le h (envLe_stepH s o)
+
+theorem delAll_envIds {s : State} (h : EnvIds s) (n : Nat) : EnvIds (delAll s n) := by
+  induction n generalizing s with
+  | zero => exact h
+  | succ n ih =>
+    simp only [delAll]
+    apply ih
+    rw [step_runs_generated_programs]
+    exact envIds_of_le h (envLe_stepH s _)
+
+/-- **`construct_destroy_once` / `blocks_returned_to_origin` for every history**: from the initial
+    pool, after *any* operation sequence (any length; copies, moves, assignments incl.
+    self-assignment and empty operands, throwing copy / value constructors, any allocator ids) and
+    the destruction of every wrapper: no ghost-heap check ever failed; every payload id ever
+    handed out was constructed exactly once and destroyed exactly once — except the two objects
+    the environment owns (ids 0 and 1, still in their slots `env 0`, `env 1`, never destroyed by a
+    wrapper); and every block ever allocated is dead and was deallocated through an allocator
+    equal to (same arena as) the one that allocated it. -/
 theorem construct_destroy_once_run (cfg : Cfg) (a b : Nat) (ha : ownsReferencedObject a = true)
-    (hb : ownsReferencedObject b = true) (ops : List Op) (hv : ∀ op ∈ ops, validOp op)
-    (hpool : ∀ i, cfg.npool ≤ i → (run (initState cfg a b) ops).wr i = none)
-    (hcfg : (run (initState cfg a b) ops).cfg = cfg) :
+    (hb : ownsReferencedObject b = true) (ops : List Op) (hv : ∀ op ∈ ops, validOp op) :
     let f := delAll (run (initState cfg a b) ops) cfg.npool
     f.err = none ∧
     (∀ id, id < f.nextId → f.ccnt id = 1 ∧
-      (f.dcnt id = 1 ∨ (f.dcnt id = 0 ∧ ∃ k o, f.env k = some o ∧ o.id = id))) ∧
+      (f.dcnt id = 1 ∨ (f.dcnt id = 0 ∧ id < 2 ∧ ∃ o, f.env id = some o ∧ o.id = id))) ∧
     ∀ b', b' < f.nblk → (f.blk b').live = false ∧
       ∃ a', (f.blk b').freedBy = some a' ∧ cls a' = cls (f.blk b').alloc := by
   have hI := inv_run (inv_init cfg a b ha hb) ops hv
-  have h1 := construct_destroy_once hI (by rw [hcfg]; exact hpool)
-  have h2 := blocks_returned_to_origin hI (by rw [hcfg]; exact hpool)
+  have hcfg : (run (initState cfg a b) ops).cfg = cfg := run_cfg _ ops
+  have hpool := run_pool (initState cfg a b) ops (fun _ _ => rfl)
+  have hE := delAll_envIds (run_envIds (envIds_init cfg a b) ops) cfg.npool
+  have h1 := construct_destroy_once hI hpool
+  have h2 := blocks_returned_to_origin hI hpool
   rw [hcfg] at h1 h2
-  exact ⟨h1.1, h1.2, h2.2⟩
+  refine ⟨h1.1, ?_, h2.2⟩
+  intro id hid
+  obtain ⟨hc, hd⟩ := h1.2 id hid
+  refine ⟨hc, ?_⟩
+  rcases hd with hd | ⟨hd, k, o, hk, ho⟩
+  · exact Or.inl hd
+  · obtain ⟨e1, e2⟩ := hE k o hk
+    have : k = id := by omega
+    subst this
+    exact Or.inr ⟨hd, e2, o, hk, ho⟩
 
-/-- Non-vacuity: a heap payload and a small payload are constructed, moved, copied, a const
-    reference is made, everything is destroyed: both blocks were returned to an equal allocator,
-    no ghost error, every object constructed and destroyed exactly once. -/
+/-! ### Allocator identity: every block goes back to the arena it came from
+
+  An allocator instance is an id; `cls` is `operator==` (ids `2c`, `2c+1` are copies working on
+  the same arena `c`, any other pair is unequal).  A block records which instance allocated it
+  (`Block.alloc`) and which instance deallocated it (`Block.freedBy`).  The harness's tracking
+  arenas count the same events. -/
+
+/-- At every point of every history: each outstanding block is held by exactly the wrapper
+    recorded as its owner, whose *current* allocator (after whatever propagation took place —
+    `propagate_on_container_{copy,move}_assignment` true or false, allocator-extended
+    constructors with equal or unequal allocators) belongs to the arena the block came from —
+    so `deallocate` will hand it back there; and each block no longer outstanding *was* handed
+    back through an allocator of its own arena. -/
+theorem blocks_track_arena_run (cfg : Cfg) (a b : Nat) (ha : ownsReferencedObject a = true)
+    (hb : ownsReferencedObject b = true) (ops : List Op) (hv : ∀ op ∈ ops, validOp op) :
+    let s := run (initState cfg a b) ops
+    ∀ b', b' < s.nblk →
+      ((s.blk b').live = true →
+        ∃ w, s.wr (s.blk b').owner = some w ∧ w.self = some (.blk b') ∧
+          cls w.alloc = cls (s.blk b').alloc) ∧
+      ((s.blk b').live = false →
+        ∃ a', (s.blk b').freedBy = some a' ∧ cls a' = cls (s.blk b').alloc) := by
+  intro s b' hb'
+  have hI : Inv s := inv_run (inv_init cfg a b ha hb) ops hv
+  refine ⟨fun hl => ?_, fun hl => hI.1.freedOk b' hb' hl⟩
+  obtain ⟨w, hw, hs⟩ := hI.1.blkOwner b' hl
+  exact ⟨w, hw, hs, ((hI.1.wok _ w hw).2.2.1 b' hs).2.2.2.2.2.1.symm⟩
+
+theorem countIf_congr {n : Nat} {p q : Nat → Bool} (h : ∀ b, b < n → p b = q b) :
+    countIf n p = countIf n q := by
+  unfold countIf
+  rw [List.filter_congr (fun x hx => h x (List.mem_range.mp hx))]
+
+theorem countIf_false {n : Nat} {p : Nat → Bool} (h : ∀ b, b < n → p b = false) : countIf n p = 0 := by
+  rw [countIf_congr (q := fun _ => false) h]
+  simp [countIf]
+
+/-- **Per-arena ledger, for every history**: after any operation sequence and the destruction of
+    every wrapper, each arena `c` got back exactly the blocks it handed out, and none is
+    outstanding. -/
+theorem arena_ledger_balanced_run (cfg : Cfg) (a b : Nat) (ha : ownsReferencedObject a = true)
+    (hb : ownsReferencedObject b = true) (ops : List Op) (hv : ∀ op ∈ ops, validOp op) (c : Nat) :
+    let f := delAll (run (initState cfg a b) ops) cfg.npool
+    arenaFrees f c = arenaAllocs f c ∧ arenaLive f c = 0 := by
+  intro f
+  obtain ⟨_, _, h3⟩ := construct_destroy_once_run cfg a b ha hb ops hv
+  constructor
+  · apply countIf_congr
+    intro b' hb'
+    obtain ⟨_, a', e1, e2⟩ := h3 b' hb'
+    show (match (f.blk b').freedBy with | some a => cls a == c | none => false) = _
+    rw [e1]; simp only [e2]; rfl
+  · apply countIf_false
+    intro b' hb'
+    obtain ⟨e0, _⟩ := h3 b' hb'
+    show ((f.blk b').live && _) = false
+    rw [e0]; rfl
+
+/-! ### Non-vacuity: every hypothesis of the theorems above instantiated on concrete histories -/
+
+instance (op : Op) : Decidable (validOp op) := by
+  cases op <;> simp only [validOp] <;> infer_instance
+
+/-- outcomes of an operation sequence (for the examples) -/
+def runOuts (s : State) : List Op → List Out
+  | [] => []
+  | o :: r => (step s o).2 :: runOuts (step s o).1 r
+
+/-- A heap payload and a small payload are constructed, moved, copied, a const reference is
+    made, everything is destroyed: both blocks were returned to an equal allocator, no ghost
+    error, every object constructed and destroyed exactly once. -/
 example :
     let s0 := initState ⟨32, false, true, false, 3⟩ 16 48
     let s := run s0 [.newInPlace 0 2 48 7 false, .newInPlace 1 0 16 5 false, .moveAssign 1 0,
@@ -676,9 +858,95 @@ example :
     let f := finish s
     f.err = none ∧ badIds f = 0 ∧ badBlocks f = 0 ∧ f.nblk = 2 ∧ f.nextId = 5 := by decide
 
+/-- A history with **throwing constructors** (`thr = true`: value constructor, copy from the
+    environment, copy construction, copy assignment — twice), unequal stateful allocators
+    (ids 2, 3: arena 1; ids 0, 1: arena 0), allocator-extended copy / move construction, move
+    assignment between unequal allocators (re-allocation in the destination's arena) and a
+    move out of the environment. -/
+def exThrowOps : List Op :=
+  [.newInPlace 0 2 48 7 false, .newInPlace 1 0 16 5 true, .newCopyEnv 1 3 1 true,
+   .newCopyEnv 1 3 1 false, .copyCtor 2 0 true, .copyAssign 1 0 true, .get 1,
+   .copyCtorAlloc 2 0 1 false, .moveAssign 0 2, .copyAssign 2 0 true, .del 1, .moveCtorAlloc 1 0 0,
+   .get 1, .del 0, .newMoveEnv 0 0 0, .get 0]
+
+/-- non-propagating allocators: the exceptions are reported, the throwing operations leave the
+    target empty / non-existent, nothing leaks, each arena gets back what it handed out -/
+example :
+    let s0 := initState ⟨32, false, false, false, 3⟩ 16 48
+    let f := finish (run s0 exThrowOps)
+    runOuts s0 exThrowOps =
+      [.ok, .excCtor, .excCopy, .ok, .excCopy, .excCopy, .empty, .ok, .ok, .excCopy, .ok, .ok,
+       .val 6 7, .ok, .ok, .val 7 100] ∧
+    f.err = none ∧ badIds f = 0 ∧ badBlocks f = 0 ∧ f.nblk = 9 ∧ f.nextId = 8 ∧
+    arenaAllocs f 0 = 3 ∧ arenaFrees f 0 = 3 ∧ arenaAllocs f 1 = 6 ∧ arenaFrees f 1 = 6 ∧
+    arenaLive f 0 = 0 ∧ arenaLive f 1 = 0 := by decide
+
+/-- the same history with `propagate_on_container_{copy,move}_assignment = true` -/
+example :
+    let s0 := initState ⟨32, true, true, false, 3⟩ 16 48
+    let f := finish (run s0 exThrowOps)
+    runOuts s0 exThrowOps =
+      [.ok, .excCtor, .excCopy, .ok, .excCopy, .excCopy, .empty, .ok, .ok, .excCopy, .ok, .ok,
+       .val 4 7, .ok, .ok, .val 5 100] ∧
+    f.err = none ∧ badIds f = 0 ∧ badBlocks f = 0 ∧ f.nblk = 7 ∧ f.nextId = 6 ∧
+    arenaAllocs f 0 = 2 ∧ arenaFrees f 0 = 2 ∧ arenaAllocs f 1 = 5 ∧ arenaFrees f 1 = 5 ∧
+    arenaLive f 0 = 0 ∧ arenaLive f 1 = 0 := by decide
+
+/-- … and the whole-history theorems apply to it (`validOp` holds for every operation). -/
+example := construct_destroy_once_run ⟨32, true, true, false, 3⟩ 16 48 (by decide) (by decide)
+  exThrowOps (by decide)
+example := arena_ledger_balanced_run ⟨32, false, false, false, 3⟩ 16 48 (by decide) (by decide)
+  exThrowOps (by decide) 1
+example := blocks_track_arena_run ⟨32, false, true, false, 3⟩ 16 48 (by decide) (by decide)
+  exThrowOps (by decide)
+
 /-- Non-vacuity of the hypotheses of `inv_init` / `validOp` for the sizes the harness uses. -/
 example : ownsReferencedObject 16 = true ∧ ownsReferencedObject 32 = true ∧
     ownsReferencedObject 48 = true ∧ validOp (.newInPlace 0 0 48 7 false) :=
   ⟨by decide, by decide, by decide, by simp only [validOp]; decide⟩
+
+/-- A reachable pool with a heap-stored owner (slot 0, allocator 2), a small-buffer owner (slot 1,
+    allocator 0) and a mutable reference to environment object 0 (slot 2); slot 3 is free. -/
+def exOps : List Op := [.newInPlace 0 2 48 7 false, .newInPlace 1 0 16 5 false, .newPtr 2 1 0 false]
+def exS : State := run (initState ⟨32, true, false, false, 4⟩ 16 48) exOps
+theorem exS_inv : Inv exS := inv_run (inv_init _ _ _ (by decide) (by decide)) exOps (by decide)
+def exW0 : Wrapper := ⟨some (.blk 0), 48, 2, 48, none⟩
+def exW1 : Wrapper := ⟨some (.buf 1), 16, 0, 16, some ⟨3, 5, 16⟩⟩
+def exW2 : Wrapper := ⟨some (.env 0), mutRefSize, 1, 16, none⟩
+
+/-- `dispatch_own_object`, `owners_disjoint`, `set_is_local` on two distinct owners -/
+example := dispatch_own_object exS_inv (i := 0) (w := exW0) (p := .blk 0) (by decide) rfl
+example : Loc.blk 0 ≠ Loc.buf 1 ∧
+    ∀ a b, objAt exS (.blk 0) = some a → objAt exS (.buf 1) = some b → a.id ≠ b.id :=
+  owners_disjoint exS_inv (i := 0) (j := 1) (wi := exW0) (wj := exW1) (by decide) (by decide)
+    (by decide) (by decide) (by decide) rfl rfl
+example : (opGet (opSet exS 0 9).1 1).2 = (opGet exS 1).2 :=
+  set_is_local exS_inv (i := 0) (j := 1) (wi := exW0) (wj := exW1) (p := .blk 0) (q := .buf 1)
+    (by decide) (by decide) (by decide) (by decide) (by decide) rfl rfl 9
+example : (opGet (opSet exS 0 9).1 1).2 = .val 3 5 ∧ (opGet (opSet exS 0 9).1 0).2 = .val 2 9 := by
+  decide
+
+/-- `refs_alias`, `copy_of_ref_aliases` on the reference in slot 2 -/
+example : ∃ k o, Loc.env 0 = .env k ∧ exS.env k = some o ∧ (opGet exS 2).2 = .val o.id o.val :=
+  refs_alias exS_inv (i := 2) (w := exW2) (p := .env 0) (by decide) rfl (by decide)
+example := copy_of_ref_aliases exS_inv (i := 3) (j := 2) (k := 0) (wj := exW2) (by decide)
+  (by decide) rfl (by decide)
+/-- a write through the copy of the reference is seen through the original -/
+example :
+    let r := (step exS (.copyCtor 3 2 false)).1
+    (opGet (opSet r 3 55).1 2).2 = .val 0 55 := by decide
+
+/-- `copies_independent`: copy of the heap-stored owner (slot 0) into the free slot 3 -/
+example := copies_independent exS_inv (i := 3) (j := 0) (wj := exW0) (p := .blk 0) (o := ⟨2, 7, 48⟩)
+  (by decide) (by decide) rfl (by decide) (by decide)
+
+/-- `throwing_copy_leaves_empty`, `const_violation_throws`: all hypotheses on concrete values -/
+example := throwing_copy_leaves_empty exS_inv (i := 1) (j := 0) (wi := exW1) (wj := exW0)
+  (p := .blk 0) (by decide) (by decide) (by decide) rfl (by decide)
+example :
+    let s := (step exS (.newPtr 3 0 1 true)).1
+    opSet s 3 7 = (s, .excConst) :=
+  const_violation_throws _ 3 7 ⟨some (.env 1), constRefSize, 0, 48, none⟩ (.env 1) (by decide) rfl
+    (by decide)
 
 end Alpaqa.Props.C16
